@@ -44,7 +44,7 @@ def run(ctx):
     if ctx.quick:
         plan = [("16", None, 72), ("1", "1", 24)]
     else:
-        plan = [("16", None, 1100), ("1", "1", 260)]
+        plan = [("16", None, 1300), ("1", "1", 250)]
     names = json.loads(ctx.harness("vh-gemm", ["f32-kernels"]).strip().splitlines()[-1])
     ctx.cov["kernels"] = names
     bad, traces, totals = [], [], {}
